@@ -78,6 +78,14 @@ theorem jbcd_asm_den_full (n d : Nat) (c diag : Rat) (i j : Nat) (hi : i < n) (h
 /-- … reversed full bands (pentapy, `diff_order = 2`): the same array upside down -/
 theorem jbcd_asm_reversed (n d : Nat) (c diag : Rat) :
     (asmJbcd n d c diag false true).reverse = asmJbcd n d c diag false false := Lemmas.jbcd_asm_reversed n d c diag
+/-- **`jbcd_asm_den`**: both systems of a pass, in both solver layouts: signal `I + γ D'D`, baseline `(1 + 2α) I + 2β D'D` -/
+theorem jbcd_asm_den (n d : Nat) (alpha beta gamma : Rat) (i j : Nat) (hi : i < n) (hj : j < n) :
+    denLower (asmJbcdSignal n d gamma true false) i j = docJbcd n d gamma 1 i j ∧
+    denFull (asmJbcdSignal n d gamma false false) d i j = docJbcd n d gamma 1 i j ∧
+    denLower (asmJbcdBaseline n d alpha beta true false) i j = docJbcd n d (2 * beta) (1 + 2 * alpha) i j ∧
+    denFull (asmJbcdBaseline n d alpha beta false false) d i j = docJbcd n d (2 * beta) (1 + 2 * alpha) i j :=
+  ⟨Lemmas.jbcd_asm_den_lower n d gamma 1 i j hi hj, Lemmas.jbcd_asm_den_full n d gamma 1 i j hi hj,
+   Lemmas.jbcd_asm_den_lower n d (2 * beta) (1 + 2 * alpha) i j hi hj, Lemmas.jbcd_asm_den_full n d (2 * beta) (1 + 2 * alpha) i j hi hj⟩
 /-- the baseline step is the documented `(I + 2αI + 2β D'D)` -/
 theorem jbcd_baseline_den (n d : Nat) (alpha beta : Rat) (i j : Nat) (hi : i < n) (hj : j < n) :
     denLower (asmJbcdBaseline n d alpha beta true false) i j = delta i j 1 + 2 * alpha * delta i j 1 + 2 * beta * dtdQ n d i j := by
